@@ -107,6 +107,21 @@ Proof.
   apply existsb_exists in H as (n & Hn & He). apply String.eqb_eq in He. now subst.
 Qed.
 
+(* writer, other party and location of every offending triple are among the given lists *)
+Definition all_within (ws os fs : list string) (l : list triple) : bool :=
+  forallb (fun t => existsb (String.eqb (fst (fst t))) ws && existsb (String.eqb (snd (fst t))) os
+                    && existsb (String.eqb (snd t)) fs) l.
+
+Lemma all_within_spec ws os fs l : all_within ws os fs l = true ->
+  forall w o f, In (w, o, f) l -> In w ws /\ In o os /\ In f fs.
+Proof.
+  unfold all_within. rewrite forallb_forall. intros H w o f Hin. specialize (H _ Hin). cbn [fst snd] in H.
+  apply andb_prop in H as [H H3]. apply andb_prop in H as [H1 H2].
+  apply existsb_exists in H1 as (n1 & I1 & E1). apply existsb_exists in H2 as (n2 & I2 & E2).
+  apply existsb_exists in H3 as (n3 & I3 & E3).
+  apply String.eqb_eq in E1, E2, E3. subst. auto.
+Qed.
+
 (* non-vacuity on the examples of Lib/Conc.v *)
 Example diag_unlocked : offending ex_unlocked = [("W", "W", "x")]. Proof. reflexivity. Qed.
 Example diag_locked : offending ex_locked = []. Proof. reflexivity. Qed.
